@@ -215,7 +215,13 @@ def make_data(rng, n, D, G, kind="moderate", outlier_prior=0.0, sizes=None, tag=
 
     _uid[0] += 1
     tag = tag if tag is not None else "g%d_%d" % (_uid[0], int(rng.integers(0, 2 ** 31)))
-    vals = make_values(rng, n, D, G, kind)
+    if kind == "twins":
+        # data points with bit-identical grids (mutations with identical counts): sibling clones then have identical
+        # likelihood vectors, which is what order-/multiplicity-insensitive cache keys must cope with
+        base = make_values(rng, max(1, (n + 1) // 2), D, G, "moderate")
+        vals = [base[i // 2].copy() for i in range(n)]
+    else:
+        vals = make_values(rng, n, D, G, kind)
     data = []
     for i, v in enumerate(vals):
         size = 1 if sizes is None else sizes[i]
